@@ -212,7 +212,7 @@ EXTRA = {
     "C04": " Release-style second build (-DNDEBUG -funsigned-char -O2). Plain accesses to message buffers (incl. libc block functions, wrapped) must come from the context that holds the buffer. A step-level rejection is put to the result-level specification TraceMessageQLoose before it is reported.",
     "C05": " Rings of 2^31..2^32-1 bytes (address space only) with the indices next to the end are validated against RingBufBig.tla (indices as 16-bit halves; bounded model with small halves). Release-style second build. Result-level second opinion TraceRingBufLoose.",
     "C06": " Both queues start at any cursor position after up to 700 earlier messages. Result-level second opinion TraceFibreIrqLoose (free alignment).",
-    "C03": " Interrupt part: as C06 (queues with a history, result-level second opinion).",
+    "C03": " Interrupt part: as C06 (queues with a history, result-level second opinion). Consumer side: MainLoop.tla (one action per iteration of fibre_scheduler_main_loop; NoOversleep) bound to librfn/posix/fibre_posix.c by a scripted scheduler and a mock clock.",
     "C07": " Block functions (memset/memcpy/memmove) called by librfn are wrapped so that their accesses are events too.",
     "C09": " Release-style second build; list_contains' result discarded on alternate calls.",
     "C10": " Caller memory at every offset from an 8-byte boundary; runs of up to 66000 refused claims.",
